@@ -20,7 +20,7 @@ ASSUMPTIONS = [
 ]
 EXHAUSTIVE_WHEN_PARTS = True
 
-FORMS = ["numeric", "backward_label", "forward_label", "backward_label_expr", "backward_label_macro"]
+FORMS = ["numeric", "backward_label", "forward_label", "backward_label_expr", "backward_label_macro", "numeric_bank0"]
 RELOCS = ["none", "reloc_rom", "reloc_rom_near", "reloc_ram", "org_ram", "reloc_ram_near_storage", "resume_after_reloc", "resume_after_reloc_gap"]
 
 
@@ -113,6 +113,14 @@ def build(rom: str, m: str, d: int, place: int, form: str, reloc: str):
         if target < 0:
             return None
         return head + f"{m} {target:#08x}\n", run, target
+    if form == "numeric_bank0":
+        # the target is written with 16 bits only (a literal, or a symbol for an address of bank 00): from code in another bank it is far away
+        target = (run + 2 + d) & 0xFFFF
+        if (run >> 16) == 0 or run + 2 + d < 0:
+            return None
+        if d % 2:
+            return head + f"{m} {target:#06x}\n", run, target
+        return head + f"stub_q = {target:#06x}\n{m} stub_q\n", run, target
     if form == "backward_label_expr":
         # the target is written as a chain of additions and subtractions over another label (left to right: anchor - 8 + 2 = anchor - 6)
         n = -d - 2
@@ -174,6 +182,16 @@ def judge(res: Res, rom: str, m: str, d: int, place: int, form: str, reloc: str)
         return
     same_bank = (run >> 16) == (target >> 16)
     in_window = (target & 0xFFFF) >= r_tgt["wlo"] and (run & 0xFFFF) >= r_run["wlo"] and (run & 0xFFFF) <= 0xFFFE
+    if not same_bank and in_window:
+        # another bank: when the target is far away both as an address and in the file, no displacement byte stands for it
+        o_run, o_tgt = rm.offset(cfg, run), rm.offset(cfg, target)
+        if isinstance(o_run, int) and isinstance(o_tgt, int) and abs(target - (run + 2)) > 0x200 and abs(o_tgt - (o_run + 2)) > 0x200:
+            res.distinct_count += 1
+            res.count("judged_far_other_bank")
+            if r.ok:
+                got = b"".join(x for _, x in r.blocks)
+                res.violate("out-of-range-accepted", f"{rom}: `{m}` at {run:#x} to {target:#x} in another bank (far away in address and in the file) was encoded ({got[-2:].hex()})", wit)
+            return
     if not same_bank or not in_window:
         res.count("unjudged_cross_bank_or_window")
         return
@@ -187,7 +205,7 @@ def judge(res: Res, rom: str, m: str, d: int, place: int, form: str, reloc: str)
             return
         got = r.blocks[-1][1] if r.blocks else b""     # the block opened by the last *= holds the branch
         # the branch is the last instruction before trailing filler in the forward form
-        pos = 0 if form == "forward_label" or form == "numeric" else len(got) - 2
+        pos = 0 if form in ("forward_label", "numeric", "numeric_bank0") else len(got) - 2
         if got[pos:pos + 2] != exp:
             res.violate("wrong-displacement", f"{rom}: `{m}` at {run:#x} to {target:#x} encoded {got[pos:pos + 2].hex()}, expected {exp.hex()} (displacement {true_d})", wit)
             return
@@ -201,14 +219,23 @@ def judge(res: Res, rom: str, m: str, d: int, place: int, form: str, reloc: str)
             res.see("range_reject_kinds", r.err_kind)
 
 
+MAP_HISTORY = (".map identifier=1 bank_range=0x00, 0x6f addr_range=0x8000, 0xffff mask=0x8000 mirror_bank_range=0x80, 0xcf\n"
+               ".map identifier=2 bank_range=0x7e, 0x7f addr_range=0x0000, 0xffff mask=0x10000 writable=1\n*=0x008000\nbra next_q\nnext_q:\n")
+
+
 def run_shard(shard: dict) -> Res:
     res = Res()
     rom, m, form = shard["rom"], shard["m"], shard["form"]
+    # an earlier assembly of the same process declared its own mapping: the branches below are assembled by fresh Program objects
+    # under the built-in mappings and owe it nothing
+    assemble(MAP_HISTORY, rom=None)
+    res.count("earlier_assemblies_with_their_own_map")
     for place in placements(rom):
         for reloc in RELOCS:
             for d in displacements(shard["tier"], m, form):
                 judge(res, rom, m, d, place, form, reloc)
-    b = build(rom, m, -5, placements(rom)[2], form, "none") or build(rom, m, 5, placements(rom)[2], form, "none") or build(rom, m, -20, placements(rom)[2], form, "none")
+    b = build(rom, m, -5, placements(rom)[2], form, "none") or build(rom, m, 5, placements(rom)[2], form, "none") or build(rom, m, -20, placements(rom)[2], form, "none") \
+        or build(rom, m, 5, placements(rom)[-1], form, "none")
     res.sample({"rom": rom, "src": b[0], "run": hex(b[1]), "target": hex(b[2])})
     return res
 
